@@ -17,6 +17,10 @@ TRANSPARENT_PREFIX = (
     "core::result::Result::is_err",
     "core::convert::num::",
     "core::cmp::impls::",
+    "core::cmp::Ord::max",
+    "core::cmp::Ord::min",
+    "core::cmp::max",
+    "core::cmp::min",
     "core::num::",
     "core::ops::try_trait::",
     "core::option::<Option as Try>",
